@@ -30,6 +30,10 @@ def frame_obs(f):
 
 
 def run_impl(sc):
+    import logging
+    import websocket
+    # trace logging on/off must not change anything observable (the trace calls format what was received)
+    websocket.enableTrace(bool(sc.get("trace")), handler=logging.NullHandler())
     evs = [("D", bytes.fromhex(e[1])) if e[0] == "D" else (e[0],) for e in sc["script"]]
     ws, s = connected_ws(evs, fire_cont_frame=bool(sc.get("fire")), skip_utf8_validation=bool(sc.get("skip")),
                          get_mask_key=Keys(sc.get("keys") or []))
